@@ -268,3 +268,28 @@ def byte_canon(n):
     if k == "arr":
         return ("arr", tuple(byte_canon(x) for x in n[1]))
     return n
+
+
+def assoc(e):
+    """wrapping addition is associative as well as commutative: nested sums as one multiset
+    (("waddn", sorted member reprs)), applied recursively - for comparing `(j + s) + k` with
+    `j + (s + k)`"""
+    if not isinstance(e, tuple) or not e:
+        return e
+    if isinstance(e, frozenset):
+        return frozenset(assoc(x) for x in e)
+    if e[0] in ("wadd", "wadd2"):
+        items = []
+
+        def collect(x):
+            if isinstance(x, tuple) and x and x[0] == "wadd":
+                for y in x[1]:
+                    collect(y)
+            elif isinstance(x, tuple) and x and x[0] == "wadd2":
+                collect(x[1])
+                collect(x[1])
+            else:
+                items.append(assoc(x))
+        collect(e)
+        return ("waddn", tuple(sorted(items, key=repr)))
+    return tuple(assoc(x) if isinstance(x, (tuple, frozenset)) else x for x in e)
